@@ -14,7 +14,7 @@ pub struct Ins {
     pub rel32: bool,
 }
 
-fn ins(b: &[u8]) -> Ins {
+pub fn ins(b: &[u8]) -> Ins {
     Ins { bytes: b.to_vec(), target: None, rel32: false }
 }
 
@@ -125,7 +125,7 @@ pub fn assemble(prog: &[Ins], base: u64) -> (Vec<u8>, Vec<u64>) {
     (out, addrs)
 }
 
-fn setregs_at(rng: &mut Rng, rip: u64) -> String {
+pub fn setregs_at(rng: &mut Rng, rip: u64) -> String {
     let mut vals: Vec<String> = (0..16).map(|_| format!("{:x}", rng.val())).collect();
     vals.push(format!("{:x}", rip));
     format!("setregs {}", vals.join(","))
@@ -182,6 +182,8 @@ pub fn gen_c11(tier: &str, seed: u64, out: &mut Vec<String>) {
         let stack = rng.chance(5, 6);
         let stack_len = *rng.pick(&[0x200u64, 0x200, 0x208, 0x1008, 0x3f8, 0x101, 0x18]);
         let stop_after = rng.below(30);
+        let relimit_at = rng.below(12);
+        let relimit = rng.below(12);
         let mut hooks: Vec<(&str, &str, &str)> = vec![];
         if rng.chance(1, 3) {
             for _ in 0..1 + rng.below(2) {
@@ -217,6 +219,10 @@ pub fn gen_c11(tier: &str, seed: u64, out: &mut Vec<String>) {
                     if k == stop_after {
                         break;
                     }
+                    if k == relimit_at {
+                        // the limit counts instructions since construction, also when it is (re)set in the middle of a run
+                        out.push(format!("maxinstr {:x}", relimit));
+                    }
                 }
                 out.push("regs".into());
                 out.push("areas".into());
@@ -225,6 +231,13 @@ pub fn gen_c11(tier: &str, seed: u64, out: &mut Vec<String>) {
                 out.push("state".into());
                 out.push("regs".into());
                 out.push("areas".into());
+                if rng.chance(1, 3) {
+                    // raising the limit after it was hit lets the run continue up to the new absolute count
+                    out.push(format!("maxinstr {:x}", lim + 1 + relimit));
+                    out.push("execute 1000".into());
+                    out.push("state".into());
+                    out.push("regs".into());
+                }
                 // a further step fails and changes nothing
                 out.push("step".into());
                 out.push("state".into());
@@ -277,6 +290,10 @@ pub fn gen_c18(tier: &str, seed: u64, out: &mut Vec<String>) {
         emit_new(out, &code, CODE);
         out.push(setregs_at(&mut rng, CODE));
         out.push("stack 400".into());
+        if rng.chance(1, 5) {
+            // the rendered state may contain an empty area (a heap shrunk to nothing, init_stack(0), …)
+            out.push(format!("zero {:x} 0 {}", 0x9000 + 0x1000 * rng.below(4), if rng.chance(1, 2) { "empty" } else { "~" }));
+        }
         out.push("maxinstr 50".into());
         for _ in 0..40 {
             out.push("step".into());
@@ -292,8 +309,29 @@ pub fn gen_c18(tier: &str, seed: u64, out: &mut Vec<String>) {
 pub fn gen_c12(tier: &str, seed: u64, out: &mut Vec<String>) {
     let mut rng = Rng::new(seed ^ 0xC12);
     let n = if tier == "thorough" { 3000 } else { 300 };
-    let outcomes = ["unhandled", "unhandled", "handled", "stop", "stophandled", "error"];
+    let outcomes = ["unhandled", "unhandled", "handled", "stop", "stophandled", "error", "tryreg"];
     for case in 0..n {
+        if case % 11 == 10 {
+            // a hook tries to register from inside (refused); the same registration made afterwards, outside any hook, works
+            let prog = vec![nop(), mov_r_imm32(0, 60), syscall(), nop()];
+            let (code, _) = assemble(&prog, CODE);
+            emit_new(out, &code, CODE);
+            out.push(setregs_at(&mut rng, CODE));
+            out.push(format!("hook {} Nop t tryreg -", rng.pick(&["before", "after"])));
+            out.push("step".into());
+            out.push("log".into());
+            out.push("sys".into());
+            if rng.chance(3, 4) {
+                out.push("syscalls 60".into());
+            }
+            out.push("hook before Mov late unhandled -".into());
+            for _ in 0..3 {
+                out.push("step".into());
+                out.push("log".into());
+                out.push("state".into());
+            }
+            continue;
+        }
         // two program families: straight-line code that ends at the code end or by a hook, and call/ret code on an
         // initialised stack that ends through a top-level RET (the finishing instruction still has after-hooks)
         let callret = case % 3 == 2;
@@ -391,9 +429,11 @@ pub fn gen_c13(tier: &str, seed: u64, out: &mut Vec<String>) {
             out.push("areas".into());
             continue;
         }
-        let (code, _) = assemble(&prog, CODE);
-        emit_new(out, &code, CODE);
-        out.push(setregs_at(&mut rng, CODE));
+        // the code is usually far away from where the heap goes; sometimes it is the area at address 0 or right at the start of the search
+        let code_at = match case % 10 { 8 => 0u64, 7 => 0x1000, _ => CODE };
+        let (code, _) = assemble(&prog, code_at);
+        emit_new(out, &code, code_at);
+        out.push(setregs_at(&mut rng, code_at));
         // surrounding layout: some areas right where the heap search starts
         let mut neighbours: Vec<(u64, u64)> = vec![];
         for _ in 0..rng.below(4) {
@@ -410,6 +450,7 @@ pub fn gen_c13(tier: &str, seed: u64, out: &mut Vec<String>) {
         out.push("areas".into());
         let mut heap_hint: u64 = 0; // filled by reading RAX through `rr`
         let calls = 2 + rng.below(8);
+        let first_nonzero = rng.chance(1, 3);
         for c in 0..calls {
             if c == 1 {
                 // R15 := the break the first call reported (the heap base: the heap starts empty); R14 follows the latest result
@@ -439,7 +480,11 @@ pub fn gen_c13(tier: &str, seed: u64, out: &mut Vec<String>) {
                 continue;
             }
             // argument: 0 (query), or relative to a plausible heap range
-            let arg = if c == 0 || rng.chance(1, 4) {
+            if c == 0 && first_nonzero {
+                // the very first call already moves the break (no query before it)
+                heap_hint = 0x1000 * (1 + rng.below(8));
+            }
+            let arg = if (c == 0 && !first_nonzero) || rng.chance(1, 4) {
                 0
             } else {
                 match rng.below(9) {
@@ -538,6 +583,40 @@ pub fn gen_c14(tier: &str, seed: u64, out: &mut Vec<String>) {
                     out.push(format!("rw 64 RDX {:x}", len));
                 }
                 4 if rng.chance(1, 3) => {
+                    // a read whose destination cannot take the bytes fails — and the bytes stay in the pipe for the next read
+                    let bytes: Vec<u8> = (0..4 + rng.below(0x20)).map(|_| rng.next() as u8).collect();
+                    out.push(format!("mwb {:x} {}", data, hex(&bytes)));
+                    out.push("rw 64 RAX 1".into());
+                    out.push(format!("ldreg RDI {:x}", BUF + 16 * p + 8));
+                    out.push(format!("rw 64 RSI {:x}", data));
+                    out.push(format!("rw 64 RDX {:x}", bytes.len()));
+                    out.push("step".into());
+                    out.push("rr 64 RAX".into());
+                    out.push("step".into());
+                    let bad = match rng.below(3) {
+                        0 => 0x9000_0000u64,          // unmapped
+                        1 => BUF + 0x2000 - 2,        // runs over the end of the area
+                        _ => {
+                            out.push("zero 310000 100 ~".into());
+                            out.push("prot 310000 1".into());
+                            0x31_0000                 // read-only
+                        }
+                    };
+                    out.push("rw 64 RAX 0".into());
+                    out.push(format!("ldreg RDI {:x}", BUF + 16 * p));
+                    out.push(format!("rw 64 RSI {:x}", bad));
+                    out.push(format!("rw 64 RDX {:x}", 3 + rng.below(4)));
+                    out.push("step".into());
+                    out.push("state".into());
+                    out.push("sys".into());
+                    // back to the syscall instruction, whatever the failed step did with RIP
+                    out.push(format!("rw 64 RIP {:x}", CODE));
+                    out.push("rw 64 RAX 0".into());
+                    out.push(format!("ldreg RDI {:x}", BUF + 16 * p));
+                    out.push(format!("rw 64 RSI {:x}", data));
+                    out.push("rw 64 RDX 200".into());
+                }
+                4 if rng.chance(1, 2) => {
                     // misuse: read from the write end / write to the read end (not this handler's business: falls through)
                     let rd = rng.chance(1, 2);
                     out.push(format!("rw 64 RAX {}", if rd { 0 } else { 1 }));
@@ -606,7 +685,17 @@ pub fn gen_c17(tier: &str, seed: u64, out: &mut Vec<String>) {
                     continue;
                 }
                 let len = match rng.below(6) { 0 => 0, 1 => 1, 2 => 200, _ => rng.below(24) };
-                let s: Vec<u8> = if rng.chance(1, 6) { b"-v".to_vec() } else { (0..len).map(|_| b'a' + (rng.below(26) as u8)).collect() };
+                let s: Vec<u8> = if rng.chance(1, 6) {
+                    b"-v".to_vec()
+                } else if rng.chance(1, 5) {
+                    // arguments are UTF-8 strings, not ASCII: two-, three- and four-byte characters, also ones whose code point
+                    // has a zero low byte
+                    let chars = ['é', 'ß', 'Ā', 'Ȁ', '€', '日', '本', '𝄞', 'a', '/', '='];
+                    let st: String = (0..1 + rng.below(8)).map(|_| *rng.pick(&chars)).collect();
+                    st.into_bytes()
+                } else {
+                    (0..len).map(|_| b'a' + (rng.below(26) as u8)).collect()
+                };
                 v.push(hex(&s));
             }
             v.join(",")
@@ -617,6 +706,14 @@ pub fn gen_c17(tier: &str, seed: u64, out: &mut Vec<String>) {
         let envp = mk(&mut rng, envc);
         // empty strings serialise as "-" which would read as an empty list: use explicit entry "-"? keep lists of non-empty hex
         let len = *rng.pick(&[0u64, 8, 0x28, 0x40, 0x100, 0x1000, 0x1001, 0x2345]);
+        // the program start may be set up on a machine that already has a stack (an earlier init_stack, a first program start, or
+        // just an area that happens to be called "Stack"): the new frame goes into the new area
+        match rng.below(12) {
+            0 => out.push(format!("stack {:x}", *rng.pick(&[0u64, 0x100, 0x1000, 0x4000]))),
+            1 => out.push(format!("zero {:x} {:x} Stack", *rng.pick(&[0x7000u64, 0x10_0000, 0x7fff_0000_0000]), 1 + rng.below(0x2000))),
+            2 => out.push(format!("stackps {:x} {} {}", *rng.pick(&[0x100u64, 0x1000]), mk(&mut rng, 2), "-")),
+            _ => {}
+        }
         out.push(format!("stackps {:x} {} {}", len, argv, envp));
         out.push("areas".into());
         out.push("state".into());
